@@ -10,7 +10,7 @@ from ..stubs import IoShim
 MANIFEST = dict(
     engines="A",
     technique="symbolic execution (CrossHair+z3) of the multiline codec, License/_SpaceSeparated/_LineBased conversions and Copyright build->dump->strict re-parse->dump with symbolic line contents, patterns, synopsis and texts",
-    text="Bounded model checking of the inverse laws with fully symbolic (arbitrary Unicode) strings: the ' .' codec on lists of 1-4 lines of up to 2-3 characters, License.from_str(to_str), _SpaceSeparated and _LineBased round trips on 1-3 element tuples; and of whole documents (header + 0-2 Files + 0-2 License paragraphs from a template catalogue with symbolic holes): strict re-parse yields the same paragraph sequence and values and a second dump is byte-identical.",
+    text="Bounded model checking of the inverse laws with fully symbolic (arbitrary Unicode) strings: the ' .' codec on lists of 1-4 lines of up to 2-3 characters, License.from_str(to_str), _SpaceSeparated and _LineBased round trips on 1-3 element tuples; and of whole documents (header + 0-2 Files + 0-2 License paragraphs from a template catalogue with symbolic holes): strict re-parse yields the same paragraph sequence and values and a second dump is byte-identical. Sizes: 1-10 Files patterns, 1-6 copyright lines, 0-6 license lines (counts symbolic) over catalogues of long values (joined lists up to 600 characters, lines up to 240).",
     note="Trusted: CrossHair's str models (strip/splitlines/split/join/startswith; counterexamples are replayed on CPython). Stub: a pure-Python StringIO replaces io.StringIO inside debian.copyright (write/getvalue contract). Assumed away: characters that Python's splitlines()/isspace() treat specially but the control-file format does not define (VT, FF, FS-US, NEL, LS, PS, CR) inside values; the degenerate line list ['']; license texts ending in an empty line.",
 )
 
